@@ -4,7 +4,7 @@ from wiring import Profile
 
 MANIFEST = {
     "level": "proof",
-    "text": 'theorems: the further-matching loop equals the per-field function at every index (independence), qualifier soundness, ranking; correspondence with 1-4 fields per holder incl. optional empty fields first; the EXTENDED model (Model/FactoryX.v: Init methods that look components up, post-processors that short-circuit instantiation) carries every run-level invariant family as well (Proofs/FactoryX*.v, theorems *_extended) and is what the correspondence evaluates; scenarios end with Factory.GetComponents(), are restarted on the same App value, have another App started before or in the middle, and include crowds of 24..36 instances of one type; some ordinary components are also (do-nothing) factory or definition-registry post-processors that look at the registry, and named and unnamed instances of one type stand side by side',
+    "text": 'theorems: the further-matching loop equals the per-field function at every index (independence), qualifier soundness, ranking; correspondence with 1-4 fields per holder incl. optional empty fields first; the EXTENDED model (Model/FactoryX.v: Init methods that look components up, post-processors that short-circuit instantiation) carries every run-level invariant family as well (Proofs/FactoryX*.v, theorems *_extended) and is what the correspondence evaluates; scenarios end with Factory.GetComponents(), are restarted on the same App value, have another App started before or in the middle, and include crowds of 24..36 instances of one type; some ordinary components are also (do-nothing) factory or definition-registry post-processors that look at the registry, and named and unnamed instances of one type stand side by side; processor crowds (10..15 further Ordered user post-processors of pairwise different Order behind the built-in ones)',
     "design_ref": "DESIGN.md 5 C08, 4.3, Appendix A/D",
     "note": "trusted: Coq kernel + vm_compute; hand-written model (Model/Resolve.v, Factory.v, App.v) tied to the code by exact "
             "comparison of event log, wiring and lookups on generated scenarios; Python generator/Go code generator/wx runtime; "
@@ -13,7 +13,7 @@ MANIFEST = {
 }
 
 PROFILES = [(Profile(p_wrap=0.0, n_procs=(0, 2), p_qual=0.7, p_primary=0.3, p_pointqual=0.6, p_optional=0.4, p_extra_instance=0.5, p_valid=0.6, fields=(1, 4),
-                     p_qual_api=0.5), 600, 6000)]
+                     p_qual_api=0.5, p_proc_crowd=0.03), 600, 6000)]
 
 RULE = ('populations with arbitrary qualifier/primary/naming attributes, qualifier sets of size 1-2 incl. the empty qualifier (written in the tag, '
         'or - in scenarios with a PriorityOrdered user post-processor, for half of the qualified points - added by that processor through '
